@@ -123,6 +123,34 @@ Definition malformed (a : areq) : bool :=
   negb (a_version a) || negb (a_path a)
   || negb (forallb (fun ok => ok) (a_shared a)) || negb (body_ok (a_body a)).
 
+(* K18.  [malformed] only knows what dropshot itself checks.  On the wire a
+   request can also be malformed in the framing of its body (an invalid
+   chunk-size line, ...): hyper decodes a body lazily, so that is found only
+   if somebody reads the body.  [frames_ok] is what a reader WOULD find. *)
+Definition wire_malformed (frames_ok : bool) (a : areq) : bool :=
+  malformed a || negb frames_ok.
+
+(* the extractors with which dropshot itself reads the whole body *)
+Definition extractor_reads_body (b : body_spec) : bool :=
+  match b with
+  | BTyped _ _ _ _ _ _ => true
+  | BUntyped _ _ => true
+  | _ => false
+  end.
+
+(* the taxonomy's own record of the framing agrees with the wire *)
+Definition framing_consistent (frames_ok : bool) (a : areq) : bool :=
+  match a_body a with
+  | BTyped f _ _ _ _ _ => Bool.eqb f frames_ok
+  | BUntyped f _ => Bool.eqb f frames_ok
+  | _ => true
+  end.
+
+(* known-finding class K18: the body framing is invalid and the endpoint's
+   extractor does not read the body *)
+Definition k18_class (frames_ok : bool) (a : areq) : bool :=
+  negb frames_ok && negb (extractor_reads_body (a_body a)).
+
 (* ErrorStatusCode's invariant *)
 Definition handler_wf (h : handler_res) : bool :=
   match h with
